@@ -71,6 +71,9 @@ def gen_plan(seed, tier="quick"):
         chunk_ref *= 2
     n_jobs = r.choice([1, 2, 2, 3, 4, 5, 6, 8])
     nunits = r.choice([1, 2, 3, 3, 5, 8])
+    if tier == "thorough" and r.random() < 0.15:              # deeper bounds in the thorough tier
+        n_jobs = r.choice([12, 16])
+        nunits = r.choice([8, 12, 20])
     max_wf = r.choice([3, 5, 8, 16, 40])
     # spike train
     times = set()
@@ -402,6 +405,8 @@ def _run(plan, base):
     xplan = dict(plan)
     if viol:
         xplan["recorded_schedule"] = next((e[4] for e in reversed(log) if e[0] == "sim"), None)
+        if SCHED.delay is not None and SCHED.delay.get("site"):
+            xplan["held_at"] = {"task": SCHED.delay.get("task"), "before_line": SCHED.delay["site"]}   # for the reader of the replay file
     return {"violation": viol, "stats": stats, "digest": digest(log), "plan": xplan,
             "sample": {"plan": {k: (v if k != "spikes" else v[:12]) for k, v in plan.items() if k != "trace"},
                        "n_spikes": len(plan["spikes"]), "schedule_head": next((e[4][:10] for e in reversed(log) if e[0] == "sim"), None)}}
